@@ -581,6 +581,9 @@ class ServeMpsMedia(MediaRequestBase):
                 raise ValueError('Segment beyond end of media')
             seg_num = representation.start_number + mod_seg - first_seg
         else:
+            if seg_num < representation.start_number:
+                # numbers count from the first segment of the period
+                raise ValueError('Segment before start of period')
             mod_seg += seg_num - representation.start_number
             if mod_seg < 1:
                 raise ValueError('Segment before start of media')
